@@ -78,20 +78,26 @@ _stage_cache = {}
 
 
 def _stages():
+    """the sub-pipeline the CLI registers from the first to the last communication_event_* stage (today:
+    collection, pipeline_barrier, apply), whatever its shape; the shared context is copied once per call"""
     if "s" not in _stage_cache:
         rec = [r for r in stage.cli_stages(["--comm_summarize_seq"]) if r["registered"]]
-        i = [k for k, r in enumerate(rec) if r["name"] == "communication_event_collection"]
-        assert len(i) == 1, "communication_event_collection is not registered exactly once"
-        i = i[0]
-        names = [r["name"] for r in rec[i:i + 3]]
-        assert names == ["communication_event_collection", "pipeline_barrier", "communication_event_apply"], names
-        assert rec[i]["context"] is rec[i + 2]["context"], "collection and apply do not share their context"
-        _stage_cache["s"] = rec[i:i + 3]
+        idx = [k for k, r in enumerate(rec) if r["name"] in ("communication_event_collection", "communication_event_apply")]
+        if not idx:
+            raise RuntimeError("--comm_summarize_seq registers no communication_event_* stage")
+        _stage_cache["s"] = rec[idx[0]:idx[-1] + 1]
+        _stage_cache["shape"] = [r["name"] for r in _stage_cache["s"]]
     rec = _stage_cache["s"]
-    cctx = copy.deepcopy(rec[0]["context"])
-    return [(rec[0]["callback"], cctx, dict(rec[0]["kwargs"])),
-            (rec[1]["callback"], rec[1]["context"], dict(rec[1]["kwargs"])),
-            (rec[2]["callback"], cctx, dict(rec[2]["kwargs"]))], cctx
+    import aiu_trace_analyzer.pipeline.barrier as barrier_mod
+    memo, out, cctx = {}, [], None
+    for r in rec:
+        c = r["context"]
+        if c is not None and c is not barrier_mod._main_barrier_context:
+            c = copy.deepcopy(c, memo)          # one copy per distinct context object: sharing is preserved
+            if hasattr(c, "queues") and "communication" in r["name"]:
+                cctx = c
+        out.append((r["callback"], c, dict(r["kwargs"])))
+    return out, cctx
 
 
 def to_real(ev):
@@ -111,8 +117,9 @@ def run_real(case):
     inp = [to_real(ev) for ev in case["events"]]
     with contextlib.redirect_stdout(io.StringIO()):
         out, err = stage.run_stages(stages, inp)
-    left = len(cctx.queues)
-    cctx.queues.clear()            # keep __del__ quiet
+    left = len(cctx.queues) if cctx is not None else 0
+    if cctx is not None:
+        cctx.queues.clear()            # keep __del__ quiet
     return {"inp": inp, "out": out, "err": err, "left": left}
 
 
@@ -507,6 +514,7 @@ def run(ctx: Ctx):
         ctx.count("e2e_sequences", info.get("sequences", 0))
         ctx.count("e2e_multi_part_sequences", info.get("multi_part_sequences", 0))
         ctx.case_done(case, nontrivial=info.get("multi_part_sequences", 0) > 0)
+    ctx.extra["registered_sub_pipeline"] = _stage_cache.get("shape")
     if ctx.search_mode or not ctx.driver or not ctx.driver.ok:
         return
     outs = ctx.driver.ask([ln for _, ln in cases])
